@@ -630,10 +630,15 @@ class NativeCtx:
     def stub(self, key, fn, note=None):
         """natively the real callee runs, unless `apply_stubs` (conformance runs, and the second replay attempt
         `under the assumed contract`): then the repo function is patched to return what the contract says"""
-        if not self.apply_stubs or ":" not in key:
+        if not self.apply_stubs:
             return
         import importlib
-        modname, qual = key.split(":")
+        if ":" not in key:
+            if "." not in key or key.startswith("builtins."):
+                return
+            modname, qual = key.rsplit(".", 1)          # a library function, e.g. scipy.spatial.Voronoi: patched on its module
+        else:
+            modname, qual = key.split(":")
         owner = importlib.import_module(modname)
         parts = qual.split(".")
         for p in parts[:-1]:
